@@ -1,1 +1,2 @@
 //! Reference models.
+pub mod dates;
